@@ -269,7 +269,7 @@ def c20(ctx):
     ctx.model_check("ThrottleMC", "ThrottleMC_kf.cfg", expect_violation="Spacing")
     nviol = 0
     out = os.path.join(ctx.scratch, "t", "debounce")
-    summ = ctx.drive_procs("debounce", ["-out", out, "-depth", dict(quick=6, thorough=8)[ctx.tier]], 8)
+    summ = ctx.drive_procs("debounce", ["-out", out, "-depth", dict(quick=5, thorough=7)[ctx.tier]], 8)
     if summ["nodes"] < 10:
         raise Infra("driver debounce recorded only %d nodes" % summ["nodes"])
     ctx.notes["driver_debounce"] = dict(nodes=summ["nodes"], root_to_leaf_paths=summ["leaves"], panics_recorded=summ["panics"])
